@@ -10,7 +10,7 @@ from __future__ import annotations
 import sys
 from pathlib import Path
 
-_TOOL = 4  # a free tool id (0 debugger, 1 coverage, 2 profiler, 5 optimizer are conventional)
+_TOOL = 3  # a free tool id (0 debugger, 1 coverage, 2 profiler, 5 optimizer are conventional; 4 is used by oracles/id_run.py)
 _seen: set[tuple[str, int]] = set()
 _reported: set[tuple[str, int]] = set()
 _files: dict[str, str] = {}  # absolute path -> relative name
